@@ -5,8 +5,8 @@
    Strings are lists of code points.  Exceptions are data ([res']).  argparse
    itself is a parameter ([subparser]) of [parse_args]; [mini_sub] is the
    concrete stand-in used by the correspondence check (a fragment of argparse:
-   store_true flags, nargs='*' positionals, the standard -v/--color/--no-color
-   options).  The constants of gen/C19_Consts.v are re-read from the source on
+   store_true flags, '--name VALUE' options, nargs='*' positionals, the standard
+   -v/--color/--no-color options).  The constants of gen/C19_Consts.v are re-read from the source on
    every run.  No proofs in this file. *)
 From Coq Require Import ZArith List Bool.
 From AK Require Import gen.C19_Consts.
@@ -125,18 +125,22 @@ Definition parse_decl (s : str) : decl :=
 (* parsers                                                              *)
 
 (* p_id: identity of the parser object; p_deps: _dependent_parsers (ordered
-   dict name -> parser object); p_flags / p_poss: arguments added with
-   add_argument (beyond the standard ones copied from common_options) *)
+   dict name -> parser object); p_flags / p_poss / p_vals: arguments added with
+   add_argument (beyond the standard ones copied from common_options):
+   '--name' store_true flags, 'name' nargs='*' positionals, '--name' options
+   that take one value *)
 Record parser := mkP {
   p_id : nat; p_internal : bool; p_deps : list (str * nat);
-  p_flags : list str; p_poss : list str }.
+  p_flags : list str; p_poss : list str; p_vals : list str }.
 
 Definition set_deps (pa : parser) (d : list (str * nat)) : parser :=
-  mkP (p_id pa) (p_internal pa) d (p_flags pa) (p_poss pa).
+  mkP (p_id pa) (p_internal pa) d (p_flags pa) (p_poss pa) (p_vals pa).
 Definition set_flags (pa : parser) (f : list str) : parser :=
-  mkP (p_id pa) (p_internal pa) (p_deps pa) f (p_poss pa).
+  mkP (p_id pa) (p_internal pa) (p_deps pa) f (p_poss pa) (p_vals pa).
 Definition set_poss (pa : parser) (f : list str) : parser :=
-  mkP (p_id pa) (p_internal pa) (p_deps pa) (p_flags pa) f.
+  mkP (p_id pa) (p_internal pa) (p_deps pa) (p_flags pa) f (p_vals pa).
+Definition set_vals (pa : parser) (f : list str) : parser :=
+  mkP (p_id pa) (p_internal pa) (p_deps pa) (p_flags pa) (p_poss pa) f.
 
 Definition dep_names (pa : parser) : list str := map fst (p_deps pa).
 
@@ -179,7 +183,7 @@ Definition declare (st : state) (d : decl) : res' state :=
   else if negb (forallb (fun p => mem p (keys st)) (d_parents d)) then Raise AssertionError
   else let id := length st in
        bind' (foldM (reg_parent (d_name d) id) (d_parents d) st)
-             (fun st1 => Ret (st1 ++ [(d_name d, mkP id (d_internal d) [] [] [])])).
+             (fun st1 => Ret (st1 ++ [(d_name d, mkP id (d_internal d) [] [] [] [])])).
 
 Definition build (ds : list decl) : res' state := foldM declare ds [].
 
@@ -200,7 +204,7 @@ Definition init_multicmd (cmds : list str) (dflt : option str) : res' (state * o
 (* ------------------------------------------------------------------ *)
 (* add_argument                                                         *)
 
-Inductive okind := KFlag | KPos.          (* '--name' store_true | 'name' nargs='*' *)
+Inductive okind := KFlag | KPos | KVal.   (* '--name' store_true | 'name' nargs='*' | '--name' VALUE *)
 Inductive target := TGlobal | TCmd (p : str).   (* ArgParser.add_argument | get_cmd_parser(p).add_argument *)
 Notation op := (target * okind * str)%type.
 
@@ -211,12 +215,17 @@ Definition std_option_strings (no_log : bool) : list str :=
   ++ (if no_log then [] else [opt_verbose_short; opt_verbose_long])
   ++ [opt_color; opt_no_color].
 
+(* the option string '--o' is already in use in the parser *)
+Definition opt_taken (no_log : bool) (o : str) (pa : parser) : bool :=
+  mem (flag_str o) (std_option_strings no_log) || mem o (p_flags pa) || mem o (p_vals pa).
+
 (* argparse's add_argument on one parser: conflicting option strings raise *)
 Definition add_local (no_log : bool) (k : okind) (o : str) (pa : parser) : res' parser :=
   match k with
-  | KFlag => if mem (flag_str o) (std_option_strings no_log) || mem o (p_flags pa)
-             then Raise ArgumentError
+  | KFlag => if opt_taken no_log o pa then Raise ArgumentError
              else Ret (set_flags pa (p_flags pa ++ [o]))
+  | KVal => if opt_taken no_log o pa then Raise ArgumentError
+            else Ret (set_vals pa (p_vals pa ++ [o]))
   | KPos => Ret (set_poss pa (p_poss pa ++ [o]))
   end.
 
@@ -245,22 +254,22 @@ Inductive colorv := CStr (s : str) | CNone | CFalse.
 (* what a command's own parser returns *)
 Record subns := mkSub {
   sn_verbose : nat; sn_color : colorv; sn_no_color : bool;
-  sn_flags : list (str * bool); sn_poss : list (str * list str) }.
+  sn_flags : list (str * bool); sn_poss : list (str * list str); sn_vals : list (str * option str) }.
 
-(* argparse: no_log -> flags -> positionals -> arguments -> namespace / SystemExit *)
-Notation subparser := (bool -> list str -> list str -> list str -> option subns).
+(* argparse: no_log -> flags -> positionals -> value options -> arguments -> namespace / SystemExit *)
+Notation subparser := (bool -> list str -> list str -> list str -> list str -> option subns).
 
 Record cfg := mkCfg { c_no_log : bool; c_no_log_file : bool; c_help_if_no_args : bool }.
 
 Record ns := mkNs {
   ns_command : str; ns_verbose : option nat; ns_color : colorv; ns_no_log_file : bool;
-  ns_flags : list (str * bool); ns_poss : list (str * list str) }.
+  ns_flags : list (str * bool); ns_poss : list (str * list str); ns_vals : list (str * option str) }.
 
 (* lines 148-153 *)
 Definition finish (c : cfg) (cmd : str) (s : subns) : ns :=
   mkNs cmd (if c_no_log c then None else Some (sn_verbose s))
        (if sn_no_color s then CFalse else sn_color s)
-       (c_no_log_file c) (sn_flags s) (sn_poss s).
+       (c_no_log_file c) (sn_flags s) (sn_poss s) (sn_vals s).
 
 Definition starts_dash (s : str) : bool := match s with c :: _ => c =? ch_dash | [] => false end.
 
@@ -270,7 +279,7 @@ Definition main_parse (sub : subparser) (c : cfg) (st : state) (a0 : str) (rest 
   if starts_dash a0 then Raise SystemExit
   else match lookup a0 st with
        | Some pa => if p_internal pa then Raise SystemExit
-                    else match sub (c_no_log c) (p_flags pa) (p_poss pa) rest with
+                    else match sub (c_no_log c) (p_flags pa) (p_poss pa) (p_vals pa) rest with
                          | Some s => Ret (finish c a0 s)
                          | None => Raise SystemExit
                          end
@@ -298,17 +307,22 @@ Definition parse_args (sub : subparser) (c : cfg) (st : state) (dflt : option st
 
 Inductive blk := BNone | BOpen | BClosed.
 
+(* a_given: values given to '--name VALUE' options, latest first *)
 Record acc := mkAcc {
   a_verbose : nat; a_color : colorv; a_seen_color : bool; a_no_color : bool;
-  a_set : list str; a_words : list str; a_blk : blk }.
+  a_set : list str; a_words : list str; a_blk : blk; a_given : list (str * str) }.
 
 Definition close_blk (a : acc) : acc :=
   mkAcc (a_verbose a) (a_color a) (a_seen_color a) (a_no_color a) (a_set a) (a_words a)
-        (match a_blk a with BOpen => BClosed | b => b end).
+        (match a_blk a with BOpen => BClosed | b => b end) (a_given a).
 
 Definition set_color (a : acc) (v : colorv) : option acc :=
   if a_no_color a then None
-  else Some (mkAcc (a_verbose a) v true false (a_set a) (a_words a) (a_blk a)).
+  else Some (mkAcc (a_verbose a) v true false (a_set a) (a_words a) (a_blk a) (a_given a)).
+
+Definition give (o v : str) (a : acc) : acc :=
+  mkAcc (a_verbose a) (a_color a) (a_seen_color a) (a_no_color a) (a_set a) (a_words a) (a_blk a)
+        ((o, v) :: a_given a).
 
 Fixpoint strip_prefix (p s : str) : option str :=
   match p, s with
@@ -327,7 +341,7 @@ Definition short_verbose_count (x : str) : option nat :=
   | _ => None
   end.
 
-Fixpoint mini_go (nl : bool) (F P : list str) (args : list str) (a : acc) : option acc :=
+Fixpoint mini_go (nl : bool) (F P V : list str) (args : list str) (a : acc) : option acc :=
   match args with
   | [] => Some a
   | x :: r =>
@@ -336,8 +350,8 @@ Fixpoint mini_go (nl : bool) (F P : list str) (args : list str) (a : acc) : opti
         match a_blk a with
         | BClosed => None
         | _ => if is_nil P then None
-               else mini_go nl F P r (mkAcc (a_verbose a) (a_color a) (a_seen_color a) (a_no_color a)
-                                            (a_set a) (a_words a ++ [x]) BOpen)
+               else mini_go nl F P V r (mkAcc (a_verbose a) (a_color a) (a_seen_color a) (a_no_color a)
+                                              (a_set a) (a_words a ++ [x]) BOpen (a_given a))
         end
       else
         let a := close_blk a in
@@ -347,37 +361,47 @@ Fixpoint mini_go (nl : bool) (F P : list str) (args : list str) (a : acc) : opti
           | y :: r' =>
               if negb (starts_dash y) then
                 if mem y color_choices
-                then match set_color a (CStr y) with Some a' => mini_go nl F P r' a' | None => None end
+                then match set_color a (CStr y) with Some a' => mini_go nl F P V r' a' | None => None end
                 else None
-              else match set_color a CNone with Some a' => mini_go nl F P r a' | None => None end
-          | [] => match set_color a CNone with Some a' => mini_go nl F P r a' | None => None end
+              else match set_color a CNone with Some a' => mini_go nl F P V r a' | None => None end
+          | [] => match set_color a CNone with Some a' => mini_go nl F P V r a' | None => None end
           end
         else match strip_prefix (opt_color ++ [ch_eq]) x with
         | Some v => if mem v color_choices
-                    then match set_color a (CStr v) with Some a' => mini_go nl F P r a' | None => None end
+                    then match set_color a (CStr v) with Some a' => mini_go nl F P V r a' | None => None end
                     else None
         | None =>
         if str_eqb x opt_no_color then
           if a_seen_color a then None
-          else mini_go nl F P r (mkAcc (a_verbose a) (a_color a) false true (a_set a) (a_words a) (a_blk a))
+          else mini_go nl F P V r (mkAcc (a_verbose a) (a_color a) false true (a_set a) (a_words a) (a_blk a) (a_given a))
         else if negb nl && str_eqb x opt_verbose_long then
-          mini_go nl F P r (mkAcc (S (a_verbose a)) (a_color a) (a_seen_color a) (a_no_color a)
-                                  (a_set a) (a_words a) (a_blk a))
+          mini_go nl F P V r (mkAcc (S (a_verbose a)) (a_color a) (a_seen_color a) (a_no_color a)
+                                    (a_set a) (a_words a) (a_blk a) (a_given a))
         else match (if nl then None else short_verbose_count x) with
-        | Some k => mini_go nl F P r (mkAcc (k + a_verbose a) (a_color a) (a_seen_color a) (a_no_color a)
-                                            (a_set a) (a_words a) (a_blk a))
+        | Some k => mini_go nl F P V r (mkAcc (k + a_verbose a) (a_color a) (a_seen_color a) (a_no_color a)
+                                              (a_set a) (a_words a) (a_blk a) (a_given a))
         | None =>
         match strip_prefix [ch_dash; ch_dash] x with
         | Some o => if mem o F
-                    then mini_go nl F P r (mkAcc (a_verbose a) (a_color a) (a_seen_color a) (a_no_color a)
-                                                 (o :: a_set a) (a_words a) (a_blk a))
-                    else None                         (* -h/--help, unknown option *)
+                    then mini_go nl F P V r (mkAcc (a_verbose a) (a_color a) (a_seen_color a) (a_no_color a)
+                                                   (o :: a_set a) (a_words a) (a_blk a) (a_given a))
+                    else if mem o V
+                    then (* '--o VALUE': exactly one argument that is not an option *)
+                         match r with
+                         | y :: r' => if starts_dash y then None else mini_go nl F P V r' (give o y a)
+                         | [] => None
+                         end
+                    else match split_first ch_eq o with
+                         | Some (o1, v) => if mem o1 V then mini_go nl F P V r (give o1 v a)   (* '--o=VALUE' *)
+                                           else None                (* '--flag=x', unknown option *)
+                         | None => None                             (* -h/--help, unknown option *)
+                         end
         | None => None
         end end end
   end.
 
-Definition mini_sub : subparser := fun nl F P args =>
-  match mini_go nl F P args (mkAcc 0 (CStr color_default) false false [] [] BNone) with
+Definition mini_sub : subparser := fun nl F P V args =>
+  match mini_go nl F P V args (mkAcc 0 (CStr color_default) false false [] [] BNone []) with
   | None => None
   | Some a =>
       Some (mkSub (a_verbose a) (a_color a) (a_no_color a)
@@ -385,5 +409,6 @@ Definition mini_sub : subparser := fun nl F P args =>
                   (match P with
                    | [] => []
                    | p0 :: ps => (p0, a_words a) :: map (fun p => (p, [])) ps
-                   end))
+                   end)
+                  (map (fun o => (o, lookup o (a_given a))) V))
   end.
